@@ -85,6 +85,14 @@ def check_values(res, f, label, merged_truths=None):
                         {'cluster': int(c), 'channels': D, 'mean': describe(expw)},
                         describe(Cw[c][:, D])))
             break
+        # ... and it lives on those channels only: what is unwhitened and exported is the mean restricted
+        # to the dominant template's channels, not a waveform with energy elsewhere
+        rest = [ch for ch in range(nc) if ch not in set(int(x) for x in D)]
+        if c < Cw.shape[0] and rest and np.any(Cw[c][:, rest] != 0):
+            bad.append(('clusters.waveforms', 'energy-outside-the-dominant-template-channels',
+                        {'cluster': int(c), 'channels': [int(x) for x in D]},
+                        {'nonzero on': [ch for ch in rest if np.any(Cw[c][:, ch] != 0)]}))
+            break
     ncw = min(extra['n_closest'], nc)
     y = pos[:, 1]
 
@@ -195,6 +203,8 @@ def run_case(case, acc, order):
                 prof.append([float(20 - abs(c - pk)) for c in range(14)])
             spec.update(n_channels=14, geometry='col14', spike_templates=st_w, profile=prof,
                         spike_clusters=[4 if x in (2, 3) else x for x in st_w])
+        if case.get('geometry'):
+            spec['geometry'] = case['geometry']       # (after the wide case's own geometry)
         if case.get('n_spikes'):
             # beyond one 50 000-spike batch of get_depths
             spec.update(n_spikes=case['n_spikes'], spike_templates=None, spike_clusters='same')
@@ -260,6 +270,18 @@ def explore(ctx):
         cases.append({'kind': 'single', 'cfg': dict(default, features='absent', raw=False), 'factor': f,
                       'label': '', 'probes': 'absent', 'sample_rate': 100.0, 'fill': ctx.seed,
                       'wide': True})
+    # geometries in millimetres (sites less than one unit apart) and a wide curated source with a
+    # non-diagonal whitening matrix
+    for cur in ('none', 'merge_split', 'reassign'):
+        for f in (1, 2.5):
+            cases.append({'kind': 'single', 'cfg': dict(default, curation=cur, features=['sparse', 'absent'][f == 1],
+                                                        raw=False),
+                          'factor': f, 'label': '', 'probes': 'absent', 'sample_rate': 100.0,
+                          'fill': ctx.seed, 'geometry': 'grid_mm'})
+    for geo in ('col14_mm', 'col14p_mm'):
+        cases.append({'kind': 'single', 'cfg': dict(default, features='absent', raw=False), 'factor': 2.5,
+                      'label': '', 'probes': 'absent', 'sample_rate': 100.0, 'fill': ctx.seed,
+                      'wide': True, 'geometry': geo})
     ctx.run_cases(run_case, cases, sweep='single-probe-sources')
     cases = []
     fam = [0, 1, 2, 4, 5]
